@@ -293,8 +293,47 @@ def _modstate(ctx):
                         n += 1
                         ctx.ob("C10.modstate", f, x, False, "setattr on module-level object {}".format(r))
     n += _shared_nested(ctx)
+    n += _memoised(ctx)
     ctx.count("module_state_write_sites", n)
     ctx.count("functions_scanned_for_module_state", len(index.nontest_funcs()))
+
+
+MEMO_DECORATORS = frozenset(("functools.lru_cache", "functools.cache", "functools.cached_property"))
+
+
+def _memoised(ctx):
+    """
+    A memoising decorator keeps results between calls, keyed by ==/hash of the arguments: True, 1 and
+    1.0 (False, 0, 0.0) are one key, so the first caller's result is replayed for the others unless
+    `typed=True`. Unhashable-by-identity arguments (AST nodes, dicts) make results depend on history too.
+    """
+    index = ctx.index
+    n = 0
+    for f in index.nontest_funcs():
+        for d in f.node.decorator_list:
+            call = d if isinstance(d, ast.Call) else None
+            target = call.func if call is not None else d
+            outer = f.outer
+            r = index.resolve(f.mod, target, outer)
+            if r not in MEMO_DECORATORS:
+                continue
+            n += 1
+            typed = call is not None and any(
+                k.arg == "typed" and isinstance(k.value, ast.Constant) and k.value.value is True for k in call.keywords
+            )
+            ctx.ob(
+                "C10.modstate",
+                f,
+                "@" + short(d, 50),
+                typed,
+                ""
+                if typed
+                else "memoised without typed=True: the cache outlives the call and treats True/1/1.0 (False/0/0.0) "
+                "as one key, so the value returned depends on which argument the process saw first",
+                line=d.lineno,
+            )
+    ctx.count("memoising_decorators", n)
+    return 0
 
 
 SHALLOW_COPIERS = frozenset(
